@@ -172,8 +172,13 @@ def evaluate(ctx, cases, use_model=True, configs=('cy', 'py'), nproc=None):
             # after the first factorization (LAPACK output, then kernel-specific summation order) value-dependent
             # structure (rank above a cutoff, purged blocks) may differ in the last bit: compare up to that step
             kf = [k for k, s in enumerate(s0) if s['op'] in FACT_OPS]
+            # (the outcome of that factorization itself depends on the VALUES, which C02 does not compare between the
+            # kernels: aliased blocks of shallow copies are zeroed in place by one kernel only - C03/C04's subject)
             if kf:
                 s0, s1 = s0[:kf[0] + 1], s1[:kf[0] + 1]
+                if len(s1) == len(s0):
+                    s0[-1] = {k: v for k, v in s0[-1].items() if k != '_status'}
+                    s1[-1] = {k: v for k, v in s1[-1].items() if k != '_status'}
             if s0 != s1:
                 res.fail('correspondence', 'c02.kernels-diverge', first_diff(s0, s1, 'steps'), case)
     return res
